@@ -1,4 +1,5 @@
 import SkgVerif.Model.Fit
+import SkgVerif.Gen.Views
 import Mathlib.Tactic
 /-!
 # C04 — all views of a fitted variogram describe one and the same function
@@ -59,6 +60,55 @@ theorem C04_metrics (res : List Rat) (hne : res ≠ []) :
     have := List.length_pos_iff.2 hne
     exact_mod_cast this.ne'
   simp only [mse, rss]; field_simp
+
+/-! ## tie to the source: `describe`, `parameters`, `fitted_model_function` as generated -/
+
+/-- kind of a built-in model name -/
+def kindOf (mname : String) : Kind := if mname = "matern" ∨ mname = "stable" then .shaped else .plain
+
+/-- `describe()` as generated from `create_dict_for_model` is `describeOf`: range `cof[0]`, sill
+`cof[1]`, smoothness / shape `cof[2]` for matern / stable only, nugget `cof[-1]` iff enabled -/
+theorem C04_source_describe (mname : String) (un : Bool) (cof : List Rat) :
+    Gen.describeGen mname un cof = describeOf (kindOf mname) un cof := by
+  unfold Gen.describeGen describeOf kindOf
+  by_cases h1 : mname = "matern"
+  · simp [h1]
+  · by_cases h2 : mname = "stable"
+    · simp [h2]
+    · simp [h1, h2]
+
+/-- the coefficient list rebuilt from `describe()` (what kriging evaluates), as generated from
+`fitted_model_function`, is `rebuildCof` whenever the dictionary is one `describe()` produces
+for that model (shape present iff the model has one) -/
+theorem C04_source_rebuild (mname : String) (un : Bool) (cof : List Rat) :
+    Gen.rebuildGen mname (Gen.describeGen mname un cof) = rebuildCof (Gen.describeGen mname un cof) := by
+  unfold Gen.rebuildGen Gen.describeGen Gen.describeHasKey rebuildCof
+  by_cases h1 : mname = "matern"
+  · subst h1; by_cases hn : (if un then cof.getLastD 0 else (0 : Rat) / 1) = 0 <;> simp [hn]
+  · by_cases h2 : mname = "stable"
+    · subst h2; by_cases hn : (if un then cof.getLastD 0 else (0 : Rat) / 1) = 0 <;> simp [hn]
+    · by_cases hn : (if un then cof.getLastD 0 else (0 : Rat) / 1) = 0 <;> simp [h1, h2, hn]
+
+/-- `parameters` as generated lists exactly range, sill, (shape), nugget of `describe()` -/
+theorem C04_source_parameters (mname : String) (hn : mname ≠ "nugget") (un : Bool) (cof : List Rat) :
+    Gen.parametersGen mname (Gen.describeGen mname un cof) =
+      parametersOf (Gen.describeGen mname un cof) := by
+  unfold Gen.parametersGen Gen.describeGen parametersOf
+  by_cases h1 : mname = "matern"
+  · subst h1; simp
+  · by_cases h2 : mname = "stable"
+    · subst h2; simp
+    · simp [h1, h2, hn]
+
+/-- hence, for the code as it is: every view built from the generated definitions agrees with
+the fitted coefficient vector under the layout `fit` establishes -/
+theorem C04_source_views_agree (mname : String) (hn : mname ≠ "nugget") (un : Bool) (cof : List Rat)
+    (h : layoutOK (kindOf mname) un cof = true) :
+    callArgs (kindOf mname) (Gen.rebuildGen mname (Gen.describeGen mname un cof)) =
+      callArgs (kindOf mname) cof ∧
+    callArgs (kindOf mname) cof = some (Gen.parametersGen mname (Gen.describeGen mname un cof)) := by
+  rw [C04_source_rebuild, C04_source_parameters mname hn, C04_source_describe]
+  exact C04_views_agree (kindOf mname) un cof h
 
 example : layoutOK .shaped true [30, 2, 3/2, 1/4] = true := by decide
 
